@@ -424,7 +424,7 @@ theorem emits_importable (pre : Predef) (env : Env V) (n : Node J V) (hwf : Node
   obtain ⟨mod, p, w', v, hmem, hacc, hw, hm, hval⟩ := change_emits_validated pre env n hwf spec j _ h
   injection hm with h1 h2 h3
   subst h1; subst h2; subst h3
-  refine ⟨⟨w, .parameter, p.dt.datainfo, some p.readonly, p.constant.map p.dt.exportV, p.props⟩, ?_, law p.dt v hval⟩
+  refine ⟨⟨w, .parameter, p.dt.datainfo, some p.readonly, p.constant.map p.dt.exportV, p.props, none⟩, ?_, law p.dt v hval⟩
   rw [findDesc_eq pre n hwf.names mod.name w, findModule_of_mem pre n hwf mod hmem]
   simp only
   have hexp : mod.exported = true := by
@@ -552,7 +552,7 @@ theorem emits_importable_history (pre : Predef) (clientImports : J → J → Boo
     rcases ho with rfl | ho
     · obtain ⟨mod, p, v, hmem, hname, hacc, hw, hjv, hval⟩ := step_emits_validated pre env n hwf r m w jv hm
       subst hname; subst hjv
-      refine ⟨⟨w, .parameter, p.dt.datainfo, some p.readonly, p.constant.map p.dt.exportV, p.props⟩, ?_, law p.dt v hval⟩
+      refine ⟨⟨w, .parameter, p.dt.datainfo, some p.readonly, p.constant.map p.dt.exportV, p.props, none⟩, ?_, law p.dt v hval⟩
       rw [findDesc_eq pre n hwf.names mod.name w, findModule_of_mem pre n hwf mod hmem]
       simp only
       have hexp : mod.exported = true := by
@@ -735,7 +735,7 @@ theorem read_reply_importable (pre : Predef) (env : Env V) (n : Node J V) (hwf :
     have hcv := hc mod hex.1 p hex.2.2.2.1
     have hw : wireName pre mod (.param p) = some a := by simp [wireName, hex.2.2.1, hex.2.2.2.2]
     have hdesc : findDesc (describe pre n) m a =
-        some ⟨a, .parameter, p.dt.datainfo, some p.readonly, p.constant.map p.dt.exportV, p.props⟩ := by
+        some ⟨a, .parameter, p.dt.datainfo, some p.readonly, p.constant.map p.dt.exportV, p.props, none⟩ := by
       rw [findDesc_eq pre n hwf.names m a, ← hex.2.1, findModule_of_mem pre n hwf mod hex.1]
       simp only [hex.2.2.1, if_true]
       have := find?_of_nodup_filterMap (wireName pre mod) mod.accs (hwf.wires mod hex.1) (.param p) hex.2.2.2.1 a hw
